@@ -1000,6 +1000,28 @@ def check_C15(ctx):
                 exp = 1 if (0, 1) not in present else 0
                 if got != exp:
                     bad = bad or (sv, cv, got)
+        # ... for every position, not only for position-symmetric code: the bit formula of the result is exactly
+        # "no position holds a member of the argument that the set lacks"
+        exact = None
+        try:
+            fh = BitVec(pdb).bv(r)[0]
+            exact = fh == b_not(b_or([b_and([("b", "c", i), b_not(("b", "s", i))]) for i in range(64)]))
+        except Uncertified:
+            exact = None
+        if bad is None and not exact:
+            # not recognised bit by bit: every single position on its own, with the other positions empty / full / equal
+            for i in range(64):
+                for others in (0, (1 << 64) - 1):
+                    for (sb, cb) in pats:
+                        for (so, co) in ((0, 0), (1, 0), (1, 1)):
+                            rest = others & ~(1 << i)
+                            sv = (rest if so else 0) | (sb << i)
+                            cv = (rest if co else 0) | (cb << i)
+                            if cval(ctx.fold(r, {"s": sv, "c": cv})) != (1 if (cv & ~sv) == 0 else 0):
+                                bad = bad or (sv, cv, 1 - (1 if (cv & ~sv) == 0 else 0))
+            if bad is None:
+                rep.uncertified("C15.has", "has() is not recognised bit by bit as the subset test and no counterexample was found on the position-wise patterns; all 2^128 pairs cannot be certified", pdb.where(key))
+                return
         rep.ob("C15.has", "subset", bad is None, "has(%#x, %#x) = %s: not the subset test (every member of the argument must be in the set)" % (bad or (0, 0, 0)), pdb.where(key))
         # count, single
         key, sty = ctx.method("u64", "number_of_cards", BC)
